@@ -18,7 +18,7 @@ META = {
             "dependency_order_query; H5 definitions are interned only in module_scope_with_map_query. One obligation per site. H6 no equality reachable from a salsa query value compares an insertion-ordered container (IndexMap/IndexSet) with its order-insensitive ==: salsa back-dates on equality, so dependents would keep the old order. H7 a hand-written PartialEq of a type inside a query value reads every field, none only through keys()/len()/.. . H8 = C10 Q10: no cycle of the query graph can happen (a fresh host recovers, a host that reaches the same workspace by an edit panics while validating the memo).",
     "explanation": "Decides that every answer is a function of the salsa inputs alone and that no hidden iteration order leaks "
                    "into answers: the necessary structural conditions for history-independence and determinism. Equality of answers "
-                   "across histories itself needs executions and is not decided; salsa's incremental correctness is trusted.",
+                   "across histories itself needs executions and is not decided; salsa's incremental correctness is trusted. H7 also: a hand-written equality does not compare two sequences through a truncating zip without comparing their lengths.",
     "not_decided": "equality of answers across edit histories (behavioural); salsa's own invalidation.",
     "trusted_base": ["salsa 0.17", "rustc MIR + callee resolution", "the reviewed reasons in rules/reviewed.json"],
     "assumptions": ["IntMap (nohash) and IndexMap iterate deterministically for equal contents built in equal order"],
